@@ -386,6 +386,9 @@ class MetadorGroup(MetadorNode):
     def __iter__(self):
         return iter(self.keys())
 
+    def __reversed__(self):
+        return reversed(list(self.keys()))
+
     def __len__(self):
         return len(list(self.keys()))
 
